@@ -56,7 +56,7 @@ _ALL = {
         technique="null-code preservation (taint + idiom table), fact-walker dominance, route table",
     ),
     "C03": dict(
-        want=["M1", "M2", "M3", "M4", "M5", "D2", "D6b", "S2"],
+        want=["M1", "M2", "M3", "M4", "M5", "D2", "D6b", "D9", "S2"],
         explanation=("Decides the structural causes of strategy dependence: every merge of partial results receives the "
                      "accumulated count (M1) which is updated after the merge (M2); parallel_map places results by submission "
                      "index (M3); all row-aligned arrays are split by one splitter (M4); pointer lookups are offset by the "
@@ -67,7 +67,7 @@ _ALL = {
         technique="call-site binding rules, def-use on the completion loop, typestate of the key representation",
     ),
     "C04": dict(
-        want=["T1", "T2", "D2", "D6", "D8", "M1", "M2", "M4", "K1@reduce"],
+        want=["T1", "T2", "D2", "D6", "D8", "D9", "M1", "M2", "M4", "K1@reduce"],
         explanation=("Decides the monoid contract of the block-wise kernels: reducer decision tables equal their specs (T1); "
                      "algebraic laws on the tables — empty partial is the identity, nulls are skipped, count +1 exactly on "
                      "accepted values, selection reducers return one of their operands, merge classes are closed (T2); both "
@@ -79,7 +79,7 @@ _ALL = {
         technique="GCNF decision tables + algebraic laws on tables; dispatch folding; call-site rules",
     ),
     "C05": dict(
-        want=["K3", "A3m", "M4", "M5", "P3"],
+        want=["K3", "A3m", "M4", "M5", "P3", "D9"],
         explanation=("Decides masked-row non-interference: in every kernel with a mask parameter, every store to per-group "
                      "state on a path where the row is not provably selected is an identity (K3, path enumeration with a "
                      "symbolic store); the mask is forwarded at every delegation that has one (A3m); slice masks are applied "
@@ -90,7 +90,7 @@ _ALL = {
         technique="path enumeration + symbolic identity detection; parameter-forwarding rule over resolved call sites",
     ),
     "C06": dict(
-        want=["K1", "K2", "P6", "P8", "K6"],
+        want=["K1", "K2", "P6", "P8", "K6", "U1"],
         explanation=("Decides that no information flows from a null-key row into group state: every per-group state access "
                      "indexed by a code is dominated by a null test (K1); every code re-mapping preserves -1 (K2); a null "
                      "slot is allocated wherever codes index result arrays (P6); null-key rows get a constant marker in "
@@ -126,7 +126,7 @@ _ALL = {
         technique="fact walker, path enumeration, dtype-provenance classification, dispatch folding",
     ),
     "C10": dict(
-        want=["K1@ema", "E1", "E2", "A2", "K3@ema"],
+        want=["K1@ema", "E1", "E2", "E3", "A2", "K3@ema"],
         explanation=("Decides the periphery of the EMA, not the closed form: null-key guard in the grouped kernels (K1); "
                      "invalid rows read the group's own carried value (E2); the halflife->alpha conversion is the same "
                      "function of the raw parameter in both entry points (E1); the alignment decorator names real "
